@@ -42,6 +42,7 @@ structure InvW (p : Params) (s : State) : Prop where
   bind_done : ∀ d ∈ p.targets.take s.bindPc, s.sealed d = true ∨ s.bound d = true
   fired_pc : s.firedD = true → s.bindPc = p.targets.length ∨ s.fin.isSome = true
   idle : s.running = false → (∀ d, s.bound d = false) ∧ s.bindPc = 0 ∧ s.firedD = false
+  pc_le : s.bindPc ≤ p.targets.length
 
 theorem invW_init : InvW p State.init := by
   constructor <;> simp [State.init, unsealedBound, Babylon.Gen.Anyflow.closureInitDataNum]
@@ -65,14 +66,15 @@ theorem unsealedBound_sealData (hwf : WF p) {d : Nat} {x : Option Val} (hi : Inv
 theorem invW_sealData (hwf : WF p) {d : Nat} {x : Option Val} (hi : InvW p s) (h : s.sealed d = false) :
     InvW p (sealData s d x) := by
   have hu := unsealedBound_sealData (x := x) hwf hi h
-  obtain ⟨i1, i2, i3, i4, i5⟩ := hi
+  obtain ⟨i1, i2, i3, i4, i5, i6⟩ := hi
   constructor
   · show s.wdn = (if s.firedD = true then 0 else 1) + (if s.bound d = true then s.pendingD + 1 else s.pendingD)
       + unsealedBound p (sealData s d x)
-    rw [i1, hu]
-    by_cases hb : s.bound d = true
-    · simp only [hb, if_true]; omega
-    · simp only [hb, if_false]; omega
+    cases hb : s.bound d
+    · simp only [hb, Bool.false_eq_true, if_false, Nat.add_zero] at hu ⊢
+      rw [i1, hu]
+    · simp only [hb, if_true] at hu ⊢
+      rw [i1, hu]; omega
   · exact i2
   · intro e he
     rcases i3 e he with h' | h'
@@ -83,6 +85,7 @@ theorem invW_sealData (hwf : WF p) {d : Nat} {x : Option Val} (hi : InvW p s) (h
     · right; exact h'
   · exact i4
   · exact i5
+  · exact i6
 
 theorem mem_take_succ_of_getElem? {l : List Nat} {n d : Nat} (h : l[n]? = some d) : d ∈ l.take (n + 1) := by
   rw [List.take_add_one, h]; simp
@@ -94,16 +97,17 @@ theorem invW_step (hwf : WF p) {e : Ev} (hi : InvW p s) (h : stepEvent p s e = s
     · rw [h4.2]; exact invW_sealData hwf hi h1
     · rw [h4.2.2]
       have := invW_sealData (x := x) hwf hi h1
-      exact ⟨this.wdn_eq, this.bound_mem, this.bind_done, this.fired_pc, this.idle⟩
+      exact ⟨this.wdn_eq, this.bound_mem, this.bind_done, this.fired_pc, this.idle, this.pc_le⟩
   | run =>
-    obtain ⟨i1, i2, i3, i4, i5⟩ := hi
+    obtain ⟨i1, i2, i3, i4, i5, i6⟩ := hi
     rw [(step_run h).2.2]
-    exact ⟨i1, i2, i3, i4, fun hr => by simp at hr⟩
+    exact ⟨i1, i2, i3, i4, fun hr => by simp at hr, i6⟩
   | bind =>
-    obtain ⟨i1, i2, i3, i4, i5⟩ := hi
+    obtain ⟨i1, i2, i3, i4, i5, i6⟩ := hi
     obtain ⟨hr, hf, d, hd, h4 | h4⟩ := step_bind h
     · rw [h4.2]
-      refine ⟨i1, fun e he => ?_, fun e he => ?_, fun hfd => ?_, fun hr' => ?_⟩
+      have hlt : s.bindPc < p.targets.length := (List.getElem?_eq_some_iff.mp hd).1
+      refine ⟨i1, fun e he => ?_, fun e he => ?_, fun hfd => ?_, fun hr' => ?_, hlt⟩
       · simp only at he ⊢
         rw [List.take_add_one]; exact List.mem_append.mpr (Or.inl (i2 e he))
       · simp only at he
@@ -117,7 +121,8 @@ theorem invW_step (hwf : WF p) {e : Ev} (hi : InvW p s) (h : stepEvent p s e = s
       · simp only at hfd; rw [hf] at hfd; cases hfd
       · simp only at hr'; rw [hr] at hr'; cases hr'
     · rw [h4.2.2]
-      refine ⟨?_, fun e he => ?_, fun e he => ?_, fun hfd => ?_, fun hr' => ?_⟩
+      have hlt : s.bindPc < p.targets.length := (List.getElem?_eq_some_iff.mp hd).1
+      refine ⟨?_, fun e he => ?_, fun e he => ?_, fun hfd => ?_, fun hr' => ?_, hlt⟩
       · show s.wdn + 1 = (if s.firedD = true then 0 else 1) + s.pendingD + _
         have hcp : p.targets.countP (fun e => upd s.bound d true e && !s.sealed e) = unsealedBound p s + 1 := by
           unfold unsealedBound
@@ -146,43 +151,43 @@ theorem invW_step (hwf : WF p) {e : Ev} (hi : InvW p s) (h : stepEvent p s e = s
       · simp only at hfd; rw [hf] at hfd; cases hfd
       · simp only at hr'; rw [hr] at hr'; cases hr'
   | fireD =>
-    obtain ⟨i1, i2, i3, i4, i5⟩ := hi
+    obtain ⟨i1, i2, i3, i4, i5, i6⟩ := hi
     obtain ⟨hr, hf, hw, hb, hs⟩ := step_fireD h
     rw [hs]
-    refine ⟨?_, i2, i3, fun _ => hb, fun hr' => ?_⟩
+    refine ⟨?_, i2, i3, fun _ => hb, fun hr' => ?_, i6⟩
     · show s.wdn - 1 = (if true = true then 0 else 1) + s.pendingD + unsealedBound p s
       rw [i1]; simp [hf]; omega
     · simp only at hr'; rw [hr] at hr'; cases hr'
   | fireV =>
     rw [(step_fireV h).2.2.2]
-    obtain ⟨i1, i2, i3, i4, i5⟩ := hi
+    obtain ⟨i1, i2, i3, i4, i5, i6⟩ := hi
     simp only [vsubCore]
-    split <;> exact ⟨i1, i2, i3, i4, i5⟩
-  | activate v => rw [(step_activate h).2.2.2.2]; exact ⟨hi.wdn_eq, hi.bound_mem, hi.bind_done, hi.fired_pc, hi.idle⟩
-  | dactivate v => rw [(step_dactivate h).2.2]; exact ⟨hi.wdn_eq, hi.bound_mem, hi.bind_done, hi.fired_pc, hi.idle⟩
-  | vdec v cnt => rw [(step_vdec h).2.2.2]; exact ⟨hi.wdn_eq, hi.bound_mem, hi.bind_done, hi.fired_pc, hi.idle⟩
-  | vadd => rw [(step_vadd h).2.2]; exact ⟨hi.wdn_eq, hi.bound_mem, hi.bind_done, hi.fired_pc, hi.idle⟩
+    split <;> exact ⟨i1, i2, i3, i4, i5, i6⟩
+  | activate v => rw [(step_activate h).2.2.2.2]; exact ⟨hi.wdn_eq, hi.bound_mem, hi.bind_done, hi.fired_pc, hi.idle, hi.pc_le⟩
+  | dactivate v => rw [(step_dactivate h).2.2]; exact ⟨hi.wdn_eq, hi.bound_mem, hi.bind_done, hi.fired_pc, hi.idle, hi.pc_le⟩
+  | vdec v cnt => rw [(step_vdec h).2.2.2]; exact ⟨hi.wdn_eq, hi.bound_mem, hi.bind_done, hi.fired_pc, hi.idle, hi.pc_le⟩
+  | vadd => rw [(step_vadd h).2.2]; exact ⟨hi.wdn_eq, hi.bound_mem, hi.bind_done, hi.fired_pc, hi.idle, hi.pc_le⟩
   | vsub =>
     rw [(step_vsub h).2.2]
-    obtain ⟨i1, i2, i3, i4, i5⟩ := hi
+    obtain ⟨i1, i2, i3, i4, i5, i6⟩ := hi
     simp only [vsubCore]
-    split <;> exact ⟨i1, i2, i3, i4, i5⟩
-  | procStart v ins => rw [(step_procStart h).2.2.2.2.2]; exact ⟨hi.wdn_eq, hi.bound_mem, hi.bind_done, hi.fired_pc, hi.idle⟩
-  | procEnd v => rw [(step_procEnd h).2.2.2]; exact ⟨hi.wdn_eq, hi.bound_mem, hi.bind_done, hi.fired_pc, hi.idle⟩
+    split <;> exact ⟨i1, i2, i3, i4, i5, i6⟩
+  | procStart v ins => rw [(step_procStart h).2.2.2.2.2]; exact ⟨hi.wdn_eq, hi.bound_mem, hi.bind_done, hi.fired_pc, hi.idle, hi.pc_le⟩
+  | procEnd v => rw [(step_procEnd h).2.2.2]; exact ⟨hi.wdn_eq, hi.bound_mem, hi.bind_done, hi.fired_pc, hi.idle, hi.pc_le⟩
   | sealBy v k x =>
     obtain ⟨d, _, h2, _, _, _, h6⟩ := step_seal h
     rw [h6]; exact invW_sealData hwf hi h2
   | dsub =>
-    obtain ⟨i1, i2, i3, i4, i5⟩ := hi
+    obtain ⟨i1, i2, i3, i4, i5, i6⟩ := hi
     obtain ⟨h1, h2, h3⟩ := step_dsub h
     rw [h3]
-    refine ⟨?_, i2, i3, i4, i5⟩
+    refine ⟨?_, i2, i3, i4, i5, i6⟩
     show s.wdn - 1 = (if s.firedD = true then 0 else 1) + (s.pendingD - 1) + unsealedBound p s
     rw [i1]; omega
   | finish c =>
-    obtain ⟨i1, i2, i3, i4, i5⟩ := hi
+    obtain ⟨i1, i2, i3, i4, i5, i6⟩ := hi
     rw [(step_finish h).2.2.2]
-    exact ⟨i1, i2, i3, fun hf => by rcases i4 hf with h' | h'; exact Or.inl h'; exact Or.inr rfl, i5⟩
+    exact ⟨i1, i2, i3, fun hf => by rcases i4 hf with h' | h'; exact Or.inl h'; exact Or.inr rfl, i5, i6⟩
   | reset => rw [(step_reset h).2.2.2]; exact invW_init
 
 theorem reach_invW (hwf : WF p) (h : Reachable (· = State.init) (Step p) s) : InvW p s := by
@@ -193,7 +198,7 @@ theorem reach_invW (hwf : WF p) (h : Reachable (· = State.init) (Step p) s) : I
 /-- `wdn = 0` (what `finish 0` needs) means: fired, and every target is sealed -/
 theorem targets_sealed_of_wdn_zero (hi : InvW p s) (hw : s.wdn = 0) (hf : s.fin = none) :
     ∀ t ∈ p.targets, s.sealed t = true := by
-  obtain ⟨i1, i2, i3, i4, i5⟩ := hi
+  obtain ⟨i1, i2, i3, i4, i5, i6⟩ := hi
   have hfd : s.firedD = true := by
     by_cases h : s.firedD = true
     · exact h
